@@ -195,6 +195,20 @@ func idList(is []int) []oid.ID {
 	return r
 }
 
+// settle lets background jobs that wait for a (fake-time) timer in the middle of
+// an operation - e.g. a GC pass inside a bbolt batch (MaxBatchDelay) while
+// holding the shard's read lock - run to completion. synctest.Wait alone returns
+// while such a job is parked on its timer, and a following SetMode would block on
+// the mutex forever: a goroutine waiting for a mutex is not "durably blocked", so
+// fake time could never advance. Three rounds: a job started by a ticker firing
+// at the very end of one round finishes in the next.
+func settle() {
+	for i := 0; i < 3; i++ {
+		time.Sleep(7 * time.Millisecond)
+		synctest.Wait()
+	}
+}
+
 func TestC14ReadOnlyNoChange(t *testing.T) {
 	rec := ev.New("C14", "ro-nochange")
 	defer rec.Flush()
@@ -362,7 +376,7 @@ func runCase(t *rapid.T, rec *ev.Recorder) {
 	if nMarks > 0 {
 		labels = append(labels, "marks-before-switch")
 	}
-	synctest.Wait()
+	settle()
 
 	// ---------- the switch ----------
 	r0 := shmodes.Observe(sh, allAddrs)
